@@ -729,6 +729,17 @@ struct Dumper {
             expr(o, VD->getInit());
             if (VD->getInitStyle() != VarDecl::CInit) o << ",\"style\":\"" << (VD->getInitStyle() == VarDecl::CallInit ? "call" : "list") << "\"";
         }
+        // structured binding `auto [a, b] = e;`: the names bound to the components of the (unnamed) variable
+        if (auto *DD = dyn_cast<DecompositionDecl>(VD)) {
+            o << ",\"bind\":[";
+            bool firstB = true;
+            for (auto *B : DD->bindings()) {
+                if (!firstB) o << ",";
+                firstB = false;
+                o << "{\"d\":" << declOf(B) << ",\"n\":\"" << jesc(B->getNameAsString()) << "\"}";
+            }
+            o << "]";
+        }
         o << "}";
     }
 
